@@ -98,8 +98,10 @@ fn main() {
                 nexts.sort();
                 let mut prevs: Vec<i64> = n.prevs().iter().map(|x| idx(x.id())).collect();
                 prevs.sort();
+                let live_in: Vec<u8> = n.live_in().iter().map(Register::to_num).collect();
+                let live_out: Vec<u8> = n.live_out().iter().map(Register::to_num).collect();
                 out.push(format!(
-                    "{{\"kind\":\"{kind}\",\"text\":\"{}\",\"inst\":{inst},\"label\":{label},\"call\":{},\"nexts\":{nexts:?},\"prevs\":{prevs:?},\"rin\":{},\"rout\":{},\"min\":{},\"mout\":{}}}",
+                    "{{\"kind\":\"{kind}\",\"text\":\"{}\",\"inst\":{inst},\"label\":{label},\"call\":{},\"nexts\":{nexts:?},\"prevs\":{prevs:?},\"live_in\":{live_in:?},\"live_out\":{live_out:?},\"rin\":{},\"rout\":{},\"min\":{},\"mout\":{}}}",
                     pn.to_string().replace('\\', "\\\\").replace('"', "'"),
                     pn.calls_to().is_some(),
                     regs_json(&n.reg_values_in()),
